@@ -18,8 +18,9 @@ Tolerated (same output):
   * the version test / the `not lazy` guards in any equivalent control-flow form: nested `if`, `and`, conditional
     expression, `else` of the negated test, guard clause with early return / continue, De Morgan, mirrored `==`;
   * `cached = self._get_cached(..) if not lazy else False` as an if/else statement; `if not cached` with swapped branches;
-  * `pickle.load` / `pickle.loads`, also imported by name; DATA_DIRS as list or tuple, its elements with constants
-    folded (`"~/.osaca" + "/data"`).
+  * `pickle.load` / `pickle.loads`, also imported by name; the elements of DATA_DIRS / CACHE_DIR with constants
+    folded (`"~/.osaca" + "/data"`).  (DATA_DIRS must stay a list: a tuple would change the text of find_datafile's
+    error message.)
 Insisted on: two cache-hit returns in `_get_cached` (companion probed first), each under the version test; one
 `_get_cached` call, one `_write_in_cache` call and one runtime-cache store in `__init__`; two `os.access(.., os.W_OK)`
 tests; reader and writer build the same names with the same hash.  A loop over the two candidate files, or a hit
@@ -34,6 +35,9 @@ import sys
 
 sys.path.insert(0, os.path.dirname(os.path.abspath(__file__)))
 import astutil_G1 as U  # noqa: E402
+
+# the plug-in and its helpers are inputs too: a change of either regenerates the file
+SELF = ["../verif-self:tools/gen/cacheconsts.py", "../verif-self:tools/gen/astutil_G1.py"]
 
 import translate as T  # noqa: E402
 from translate import TranslateError, generator, parse, find_func, txt, txt_list, HEADER  # noqa: E402
@@ -289,7 +293,7 @@ def _unstr(n):
 
 # --------------------------------------------------------------------------- the generator
 @generator("CacheConsts", [HW, "osaca/utils.py", "osaca/data/_build_cache.py", "osaca/data/*.yml",
-                           "osaca/data/isa/*.yml"])
+                           "osaca/data/isa/*.yml"] + SELF)
 def gen_cacheconsts():
     U.reset_cache()
     mod = U.mod_scope(HW)
@@ -475,7 +479,7 @@ def gen_cacheconsts():
     if not dd or not cd or len(dd) != 1 or len(cd) != 1 or dd[0][0] != "assign" or cd[0][0] != "assign" \
             or not any(s is dd[0][2] for s in ut.body) or not any(s is cd[0][2] for s in ut.body):
         raise TranslateError("utils.DATA_DIRS / CACHE_DIR not found")
-    if not isinstance(dd[0][1], (ast.List, ast.Tuple)) or any(isinstance(e, ast.Starred) for e in dd[0][1].elts):
+    if not isinstance(dd[0][1], ast.List) or any(isinstance(e, ast.Starred) for e in dd[0][1].elts):
         raise TranslateError("utils.DATA_DIRS is not a list literal")
     data_dirs = [ast.unparse(U.fold_constants(e, usc)) for e in dd[0][1].elts]
     cache_dir = ast.unparse(U.fold_constants(cd[0][1], usc))
